@@ -1,19 +1,19 @@
 ------------------------------ MODULE MC_C13 ------------------------------
 EXTENDS C13
 H(a, b) == <<a, b>>
-Scen_quick == {"region2", "mesh2", "twomesh", "field2", "field3", "scalar2", "unmapped", "shared"}
-Scen_all   == {"region2", "region3", "mesh2", "mesh3", "twomesh", "field2", "field3", "scalar2", "unmapped", "shared"}
+Scen_quick == {"region2", "mesh1", "mesh2", "twomesh", "field2", "field3", "scalar2", "unmapped", "shared"}
+Scen_all   == {"region2", "region3", "mesh1", "mesh2", "mesh3", "twomesh", "field2", "field3", "scalar2", "unmapped", "shared"}
 (* the zero vector and the factor one are steps like any other: the copying form still returns new objects *)
 TransVs_def == {<<R(3), R(-5), R(7)>>, <<H(-1, 2), R(0), R(2)>>, <<R(0), R(0), R(0)>>}
 ScaleFs_quick == {<<R(2), R(2), R(2)>>, <<H(1, 2), H(1, 2), H(1, 2)>>, <<R(-1), R(-1), R(-1)>>,
                   <<R(2), R(3), H(1, 2)>>, <<R(0), R(0), R(0)>>}
 ScaleFs_all == ScaleFs_quick \cup {<<R(-2), R(1), R(3)>>, <<R(1), R(0), R(1)>>, <<R(1), R(1), R(1)>>}
-RefPts_def == {<<>>, <<R(100), R(-50), R(25)>>, <<H(1, 2), H(3, 2), H(-5, 2)>>}
+RefPts_def == {<<>>, <<R(100), R(-50), R(25)>>, <<H(1, 2), H(3, 2), H(-5, 2)>>, <<R(0), R(0), R(0)>>}
 RotKs_quick == {1, 2, -1}
 \* reduced alphabet for the exhaustive depth-2 pass of the quick tier
 TransVs_small == {<<H(-1, 2), R(0), R(2)>>}
 ScaleFs_small == {<<R(-1), R(-1), R(-1)>>, <<R(2), R(3), H(1, 2)>>, <<R(0), R(0), R(0)>>}
-RefPts_small == {<<>>, <<H(1, 2), H(3, 2), H(-5, 2)>>}
+RefPts_small == {<<>>, <<H(1, 2), H(3, 2), H(-5, 2)>>, <<R(0), R(0), R(0)>>}
 RotKs_small == {1, 2}
 Bad_small == {"same-axis", "factor-too-long"}
 Bad_all == AllBadKinds
